@@ -99,7 +99,12 @@ func (in *InExpr) Eval(input []reflect.Value, isVariadic bool) (bool, error) {
 	if isVariadic {
 		// 可变参数需要展开参数数组
 		expandArgs := make([]reflect.Value, 0)
-		for _, v := range input {
+		for j, v := range input {
+			if j < len(input)-1 {
+				// 可变参数之前的固定参数无需展开
+				expandArgs = append(expandArgs, v)
+				continue
+			}
 			rv := reflect.ValueOf(v.Interface())
 			for i := 0; i < rv.Len(); i++ {
 				expandArgs = append(expandArgs, rv.Index(i))
